@@ -217,7 +217,7 @@ def _judge(ctx, res, o, label, in_len, units_ok=2 << 20):
 
 
 TOKENS = ["(", ")", "((", "()", '"', '\\"', " ", "\t", "/", ",", "=", "%", "%2", "a=", ":", "#", "list/(", "pair/(", 'x" "', "phrase/", "a/", "(a,"]
-TARGETS = ["keysafe", "keysafe-list", "keysafe-pair", "vmx-key", "vmx-value", "extent-line", "extent-name", "ddb", "keystore"]
+TARGETS = ["keysafe", "keysafe-list", "keysafe-pair", "vmx-key", "vmx-value", "extent-line", "extent-name", "extent-open-quote", "extent-quote-junk", "ddb", "keystore"]
 
 
 def _big_unit_image(rng, fmt: str):
@@ -637,6 +637,14 @@ def _crafted(case, ctx, res):
             if target == "extent-name":
                 text = '# Disk DescriptorFile\nversion=1\nRW 100 SPARSE "' + blob + '" 0 ' + blob[:2000] + "\n"
                 return text, (lambda: len(DiskDescriptor.parse(text).extents))
+            if target == "extent-open-quote":
+                # a file name whose closing quote is missing (a truncated or damaged line)
+                text = '# Disk DescriptorFile\nversion=1\nRW 100 SPARSE "' + blob + "\n"
+                return text, (lambda: len(DiskDescriptor.parse(text).extents))
+            if target == "extent-quote-junk":
+                # ... or is followed by something that is none of the optional fields
+                text = '# Disk DescriptorFile\nversion=1\nRW 100 SPARSE "' + blob + '"junk' + blob[:50] + "\n"
+                return text, (lambda: len(DiskDescriptor.parse(text).extents))
             if target == "ddb":
                 text = "# Disk DescriptorFile\nversion=1\nddb." + blob + ' = "' + blob + '"\n'
                 return text, (lambda: len(DiskDescriptor.parse(text).ddb))
@@ -645,6 +653,26 @@ def _crafted(case, ctx, res):
 
         # the same text at 1x and 4x the size: four times the input may cost about four times the CPU, not sixteen
         small, big = 20000, 80000
+        # first a ladder of very short inputs: work that doubles with every added character (a regular expression that
+        # backtracks) stays finite there - at full length it would simply never return from C code, and a run that the
+        # watchdog has to end decides nothing
+        label = f"crafted:text-repeat:{target}:{tok!r}"
+        for n_short in (12, 16, 20, 24, 28):
+            t_s, f_s = make(n_short)
+            ctx.mem.begin()
+            call(f_s)
+            cpu_s = ctx.mem.cpu()
+            cnt["short_ladder_runs"] = cnt.get("short_ladder_runs", 0) + 1
+            if cpu_s > 0.5:
+                res["viol"].append({"what": "CPU time explodes on a text input of a few dozen characters", "mech": "resources.cpu",
+                                    "detail": {"case": label, "input_len": len(t_s), "cpu_seconds": round(cpu_s, 3), "repeated_token_chars": n_short}})
+                cnt["cases"] = 1
+                cnt["crafted_cases"] = 1
+                res["sets"]["crafted"] = [c]
+                res["nontrivial"] = True
+                res["sig"] = ("crafted", c, case["r"])
+                res["sample"] = {"crafted": c, "outcome": "short ladder exceeded"}
+                return res
         t_small, f_small = make(small)
         ctx.mem.begin()
         call(f_small)
